@@ -87,6 +87,10 @@ HubTrust(t) ==
         j \in {j \in Idx(t) : t.events[j].ev = "c.enter" /\ t.events[j].v = "approve" /\ ~RegisteredBefore(t, t.events[j].h, j)}}
     \cup {<<"C01", "device-set-up-at-a-hub-that-never-trusted", t.events[j].h>> :
         j \in {j \in Idx(t) : t.events[j].ev = "Setup" /\ ~(\E i \in Idx(t) : i < j /\ (Ev(t, i, "OpRegister", t.events[j].h) \/ Ev(t, i, "OpAutoOn", t.events[j].h)))}}
+    \* ... nor after the user took his word back (an Unregister / Cancel that had returned) without giving it again
+    \cup {<<"C01", "device-set-up-after-the-user-took-his-word-back", t.events[j].h>> :
+        j \in {j \in Idx(t) : t.events[j].ev = "Setup" /\ ~RegisteredBefore(t, t.events[j].h, j) /\ ~AutoBefore(t, t.events[j].h, j)
+                              /\ \E i \in Idx(t) : i < j /\ (Ev(t, i, "OpUnregisterEnd", t.events[j].h) \/ Ev(t, i, "OpCancelEnd", t.events[j].h))}}
 Judge(t) ==
     LET A == t.hubs["A"]
         B == t.hubs["B"]
